@@ -1,7 +1,9 @@
 import CryoCat.Model.Particle
 import CryoCat.Model.M3
 import CryoCat.Gen.C10
-/-! C10 — model of `Motl.split_in_asymmetric_subunits` (cyclic branch, after repairs 837c2ef, f9fba9c, 7710334)
+import CryoCat.Model.C10_Asis
+/-! C10 — model of `Motl.split_in_asymmetric_subunits` (cyclic branch, after repairs 837c2ef, f9fba9c, 7710334 and D33:
+shift / angle columns assigned as whole columns)
 followed by `Motl.update_coordinates` (cryocat/cryomotl.py). Mathlib-free, polymorphic in the number type: the
 driver runs these definitions at `Float` (rounding: at `Rat`, on the exact value of the float), `Props/C10`
 proves theorems about them over any commutative ring / ordered field.
@@ -86,13 +88,12 @@ def roundHalfUp [LT α] [DecidableLT α] (fl : α → α) (half v : α) : α :=
 def stepAng [Div α] [NatCast α] (sv : Svc α) (n : Nat) : Ang α :=
   sv.trig ((Gen.C10.fullTurnDeg : α) / (n : α))
 
-/-- the `k`-th (0-based) subunit of parent `P`, before the final renumbering of `subtomo_id`:
-`phi_k = k·360/n`; `shift += R·(Rz(phi_k)·s)`; orientation `R·Rz(phi_k)`; `geom5 = parent id`,
+/-- everything the function does to ONE expanded row once the subunit's in-plane angle `ak` and its offset `c`
+in the parent's frame (`center_shift[k]`) are known: `shift += R·c`; orientation `R·Rz(ak)`; `geom5 = parent id`,
 `geom2 = k+1`; then `update_coordinates` (round the complete position, keep the rest as shift). -/
-def subunit [Div α] [NatCast α] (sv : Svc α) (n : Nat) (s : V3 α) (P : Particle α) (k : Nat) : SubU α :=
+def mkSub [NatCast α] (sv : Svc α) (P : Particle α) (k : Nat) (ak : Ang α) (c : V3 α) : SubU α :=
   let R := orientOf sv P
-  let ak := Ang.nsmul k (stepAng sv n)
-  let d := R.apply (ak.rz.apply s)
+  let d := R.apply c
   let vx := P.x + (P.shift_x + d.x)
   let vy := P.y + (P.shift_y + d.y)
   let vz := P.z + (P.shift_z + d.z)
@@ -102,6 +103,42 @@ def subunit [Div α] [NatCast α] (sv : Svc α) (n : Nat) (s : V3 α) (P : Parti
   let p1 := (P.set parentDstF (P.get parentSrcF)).set indexDstF (((k + Gen.C10.indexStart : Nat) : α))
   { p := { p1 with x := rx, y := ry, z := rz, shift_x := vx - rx, shift_y := vy - ry, shift_z := vz - rz },
     orient := R * ak.rz }
+
+/-- the `k`-th (0-based) subunit of parent `P`, before the final renumbering of `subtomo_id`, in CARTESIAN form:
+`phi_k = k·360/n`; `shift += R·(Rz(phi_k)·s)`; orientation `R·Rz(phi_k)` (the statement's wording; the code's own
+arithmetic — polar form of the offset — is `subunitP` below, `subunitP_eq` proves the two equal) -/
+def subunit [Div α] [NatCast α] (sv : Svc α) (n : Nat) (s : V3 α) (P : Particle α) (k : Nat) : SubU α :=
+  mkSub sv P k (Ang.nsmul k (stepAng sv n)) ((Ang.nsmul k (stepAng sv n)).rz.apply s)
+
+/-! ### the code's own arithmetic for the offset: polar form -/
+
+/-- what the code takes from numpy for the polar form of the offset -/
+structure PolarSvc (α : Type) where
+  /-- `np.sqrt` -/
+  sqrt : α → α
+  /-- `np.arctan2(y, x)` (first argument `y`) -/
+  atan2 : α → α → α
+  /-- `np.deg2rad` -/
+  deg2rad : α → α
+  /-- `np.cos`, `np.sin` of an angle in RADIANS -/
+  cosr : α → α
+  sinr : α → α
+
+/-- `center_shift[k]` as the code computes it: `rho = sqrt(s0**2 + s1**2)`, `the = arctan2(s1, s0)`,
+`rep_the = the + deg2rad(phi_k)`, `(rho*cos(rep_the), rho*sin(rep_the), s2)` -/
+def centerShift (pv : PolarSvc α) (s : V3 α) (phi : α) : V3 α :=
+  let rho := pv.sqrt (s.x * s.x + s.y * s.y)
+  let the := pv.atan2 s.y s.x
+  let a := the + pv.deg2rad phi
+  ⟨rho * pv.cosr a, rho * pv.sinr a, s.z⟩
+
+/-- `phi_angles[k] = np.arange(n_subunits)[k] * inplane_step = k * (360 / nfold)` (degrees) -/
+def phiDeg [Div α] [NatCast α] (n k : Nat) : α := (k : α) * ((Gen.C10.fullTurnDeg : α) / (n : α))
+
+/-- the `k`-th subunit AS THE CODE COMPUTES IT: the in-plane rotation is `from_euler("zxz", [phi_k, 0, 0])` with
+`phi_k = k * (360/n)` (one trig evaluation of the product, not `k` additions), the offset is the polar form -/
+def subunitP [Div α] [NatCast α] (sv : Svc α) (pv : PolarSvc α) (n : Nat) (s : V3 α) (P : Particle α) (k : Nat) : SubU α :=
+  mkSub sv P k (sv.trig (phiDeg n k)) (centerShift pv s (phiDeg n k))
 
 /-- `new_motl_df["subtomo_id"] = np.arange(1, len + 1)` -/
 def renum [NatCast α] : Nat → List (SubU α) → List (SubU α)
@@ -123,6 +160,11 @@ def expandCore [Div α] [NatCast α] [LE α] [DecidableLE α]
 def expand [Div α] [NatCast α] [LE α] [DecidableLE α]
     (sv : Svc α) (n : Nat) (s : V3 α) (l : List (Particle α)) : List (SubU α) :=
   renum 0 (expandCore sv n s l)
+
+/-- the whole function with the code's own arithmetic (polar offset, `trig (k·360/n)`): what the driver executes -/
+def expandP [Div α] [NatCast α] [LE α] [DecidableLE α]
+    (sv : Svc α) (pv : PolarSvc α) (n : Nat) (s : V3 α) (l : List (Particle α)) : List (SubU α) :=
+  renum 0 ((sortParents l).flatMap (fun P => (List.range n).map (subunitP sv pv n s P)))
 
 end model
 
@@ -166,12 +208,18 @@ def revDigitsAux : Nat → Nat → List Char
 /-- decimal digits of `n` without leading zeros, most significant first (Python `str(n)`) -/
 def digits (n : Nat) : List Char := (revDigitsAux (n + 1) n).reverse
 
+/-- Python's `int(x)` on a finite number (`int`, `float`, `np.integer`, `np.floating`) with exact value `q`:
+truncation toward zero (`int(7.9) = 7`, `int(-7.9) = -7`) -/
+def truncInt (q : Rat) : Int := if q < 0 then -((-q).floor) else q.floor
+
 /-- how the symmetry argument arrives -/
 inductive Sym where
   /-- a Python `str` (its characters) -/
   | str (cs : List Char)
-  /-- a number whose `int(...)` is `n` -/
-  | num (n : Nat)
+  /-- a finite number (`int`, `float`, `np.integer`, `np.floating`): its EXACT value -/
+  | num (q : Rat)
+  /-- a float that is NaN or ±inf: `int(symmetry)` raises ValueError / OverflowError -/
+  | nonfinite
 deriving Repr, DecidableEq
 
 /-- what the head of the function makes of the argument -/
@@ -182,12 +230,15 @@ inductive SymKind where
   | raises
   /-- a string starting with neither c/C nor d/D: `s_type` stays unbound (the ValueError is built, not raised) -/
   | unbound
+  /-- a number with `int(symmetry) < 0`: `np.zeros((nfold, 3))` raises ValueError (negative dimension) -/
+  | negative
 deriving Repr, DecidableEq
 
 /-- `nfold = int(re.findall(r"\d+", symmetry)[-1])`; cyclic when `symmetry.lower().startswith("c")`;
-a number is cyclic with `nfold = int(symmetry)` -/
+a number is cyclic with `nfold = int(symmetry)` (truncation toward zero, `truncInt`), negative raises -/
 def parseSym : Sym → SymKind
-  | .num n => .cyclic n
+  | .nonfinite => .raises
+  | .num q => if truncInt q < 0 then .negative else .cyclic (truncInt q).toNat
   | .str cs =>
     match (findallDigits cs).getLast? with
     | none => .raises
@@ -205,34 +256,11 @@ def expandSym [OfNat α 0] [OfNat α 1] [Neg α] [Add α] [Sub α] [Mul α] [Div
   | .cyclic n => if n = 0 then none else some (expand sv n s l)
   | _ => none
 
-/-! ### the row bookkeeping before repair 7710334 (regression witness D28) -/
-
-/-- stable insertion sort by key (numpy's `quicksort` IS insertion sort below 17 elements) -/
-def insertByKey (a : Nat × Nat) : List (Nat × Nat) → List (Nat × Nat)
-  | [] => [a]
-  | b :: bs => if b.2 ≤ a.2 then b :: insertByKey a bs else a :: b :: bs
-def sortByKey (l : List (Nat × Nat)) : List (Nat × Nat) := l.foldl (fun acc a => insertByKey a acc) []
-
-/-- rows are (row label, subtomo_id). As-is: `pd.concat([df]*n)`, `sort_values(by="subtomo_id")`, then the tiled
-per-parent index table `np.tile(arange(1, n+1), N)` laid over the result by position: (row, geom2) -/
-def oldBookkeeping (n : Nat) (l : List (Nat × Nat)) : List ((Nat × Nat) × Nat) :=
-  (sortByKey (List.replicate n l).flatten).zipIdx.map (fun x => (x.1, x.2 % n + Gen.C10.indexStart))
-
-/-- repaired: parents in stable id order, each repeated `n` times, the same tiled table -/
-def newBookkeeping (n : Nat) (l : List (Nat × Nat)) : List ((Nat × Nat) × Nat) :=
-  ((sortByKey l).flatMap (fun r => List.replicate n r)).zipIdx.map (fun x => (x.1, x.2 % n + Gen.C10.indexStart))
-
-/-! ### the code as it was before repair 837c2ef (regression witness D12) -/
-
-/-- `len(np.arange(0, stop, step))` for `step > 0` -/
-def arangeLen (stop step : Nat) : Nat := (stop + step - 1) / step
-
-/-- `np.arange(0, 360, int(360 / n))`: `none` = the call raises (step 0) -/
-def asisPhi (n : Nat) : Option (List Nat) :=
-  let step := Gen.C10.fullTurnDeg / n
-  if step = 0 then none else some ((List.range (arangeLen Gen.C10.fullTurnDeg step)).map (· * step))
-
-/-- the as-is code runs through (the `n_subunits × 3` array accepts the angles) iff it has exactly `n` angles -/
-def asisRuns (n : Nat) : Bool := (asisPhi n).map List.length == some n
+/-- the same with the code's own arithmetic (`expandP`): what the driver executes -/
+def expandSymP [OfNat α 0] [OfNat α 1] [Neg α] [Add α] [Sub α] [Mul α] [Div α] [NatCast α] [LE α] [DecidableLE α]
+    (sv : Svc α) (pv : PolarSvc α) (sym : Sym) (s : V3 α) (l : List (Particle α)) : Option (List (SubU α)) :=
+  match parseSym sym with
+  | .cyclic n => if n = 0 then none else some (expandP sv pv n s l)
+  | _ => none
 
 end CryoCat.C10
